@@ -1,5 +1,6 @@
-/-! Model of `tracklib/core/spatial_index.py` (class `SpatialIndex`, as it is after fixes ad7c5ee, 9a44198 and the
-degenerate-extent repair: one column / row and a non-zero cell side on an axis shorter than the cell size) and of
+/-! Model of `tracklib/core/spatial_index.py` (class `SpatialIndex`, as it is after fixes ad7c5ee, 9a44198, the
+degenerate-extent repair: one column / row and a non-zero cell side on an axis shorter than the cell size, and the
+upper-border repair: integer cell indices clamped to the last column / row) and of
 `cartesienne`, `__eval`, `isSegmentIntersects` of `tracklib/util/geometry.py`.
 
 Scalar-polymorphic (core Lean only): `α` is `Rat` in the driver (exact stream) or `Float`; `fl : α → Int` is
@@ -197,15 +198,24 @@ def cellHit (c1 c2 : α × α) (i j : Int) : Bool :=
   else if isSegmentIntersects ⟨fi1, fj, fi1, fj1⟩ segment2 then true
   else false
 
-/-- `__cellsCrossSegment(coord1, coord2)` (arguments are fractional cell indices) -/
-def cellsCross (fl : α → Int) (c1 c2 : α × α) : List (Int × Int) :=
-  let xmin := min (fl c1.1) (fl c2.1)
-  let xmax := max (fl c1.1) (fl c2.1)
-  let ymin := min (fl c1.2) (fl c2.2)
-  let ymax := max (fl c1.2) (fl c2.2)
+/-- `__cellsCrossSegment(coord1, coord2)` (arguments are fractional cell indices; `cs`, `ls` are `self.csize`,
+`self.lsize`): the scanned index box is that of the two ends, with every bound clamped to the last column / row
+(`min(floor, floor, csize - 1)` … `min(max(floor, floor), csize - 1)`): the upper border of the extent, where the
+fractional index is `csize`, belongs to the last column -/
+def cellsCross (fl : α → Int) (cs ls : Int) (c1 c2 : α × α) : List (Int × Int) :=
+  let xmin := min (min (fl c1.1) (fl c2.1)) (cs - 1)
+  let xmax := min (max (fl c1.1) (fl c2.1)) (cs - 1)
+  let ymin := min (min (fl c1.2) (fl c2.2)) (ls - 1)
+  let ymax := min (max (fl c1.2) (fl c2.2)) (ls - 1)
   (rangeI xmin (xmax + 1)).foldl (fun cells i =>
     (rangeI ymin (ymax + 1)).foldl (fun cells j =>
       if cellHit c1 c2 i j then addNew cells (i, j) else cells) cells) []
+
+/-- the integer cell of a point with fractional indices `c`, as `request(coord)` and `neighborhood(coord)` compute
+it: `(min(floor(c[0]), csize - 1), min(floor(c[1]), lsize - 1))` — a point on the upper border of the extent
+belongs to the last column / row -/
+def cellOf (fl : α → Int) (ix : Index α) (c : α × α) : Int × Int :=
+  (min (fl c.1) (ix.csize - 1), min (fl c.2) (ix.lsize - 1))
 
 /-- body of the loop of `__addSegment` for one cell -/
 def registerCell (ix : Index α) (data : Nat) (cell : Int × Int) : Res (Index α) :=
@@ -233,7 +243,7 @@ def registerCells (ix : Index α) (data : Nat) : List (Int × Int) → Res (Inde
 
 /-- `__addSegment(coord1, coord2, data)` -/
 def addSegment (fl : α → Int) (ix : Index α) (p1 p2 : α × α) (data : Nat) : Res (Index α) :=
-  registerCells ix data (cellsCross fl p1 p2)
+  registerCells ix data (cellsCross fl ix.csize ix.lsize p1 p2)
 
 /-- loop of `addFeature(track, num)`; `coord1` is the loop-carried variable. An out-of-extent vertex
 `continue`s *without* updating `coord1`. -/
@@ -282,7 +292,7 @@ def requestPoint (fl : α → Int) (ix : Index α) (p : α × α) : Res (List Na
   match getCellR ix p with
   | .error e => .error e
   | .ok none => .error .type
-  | .ok (some c) => requestCell ix (fl c.1) (fl c.2)
+  | .ok (some c) => requestCell ix (cellOf fl ix c).1 (cellOf fl ix c).2
 
 /-- `for cell in CELLS: self.__addCellValuesInTAB(TAB, cell)` -/
 def collectCells (ix : Index α) : List Nat → List (Int × Int) → Res (List Nat)
@@ -301,7 +311,7 @@ def requestSegInto (fl : α → Int) (ix : Index α) (tab : List Nat) (a b : α 
     | .error e => .error e
     | .ok o2 =>
       match o1, o2 with
-      | some p1, some p2 => collectCells ix tab (cellsCross fl p1 p2)
+      | some p1, some p2 => collectCells ix tab (cellsCross fl ix.csize ix.lsize p1 p2)
       | _, _ => .error .type
 
 def requestSeg (fl : α → Int) (ix : Index α) (a b : α × α) : Res (List Nat) :=
@@ -354,7 +364,7 @@ def neighborhoodPoint (fl : α → Int) (ix : Index α) (p : α × α) (unit : I
   | .error e => .error e
   | .ok none => .ok none
   | .ok (some c) =>
-    match neighborhoodCell ix (fl c.1) (fl c.2) unit with
+    match neighborhoodCell ix (cellOf fl ix c).1 (cellOf fl ix c).2 unit with
     | .error e => .error e
     | .ok l => .ok (some l)
 
@@ -390,7 +400,7 @@ def neighborhoodSeg (fl : α → Int) (ix : Index α) (a b : α × α) (unit : I
     | .ok o2 =>
       match o1, o2 with
       | some p1, some p2 =>
-        let cells := cellsCross fl p1 p2
+        let cells := cellsCross fl ix.csize ix.lsize p1 p2
         if unit > -1 then
           match collectAround ix unit [] cells with
           | .error e => .error e
